@@ -314,6 +314,25 @@ func (r row) lean() string {
 
 // strict accessor:  val, ok := recv.Val.(T); if !ok { return _, err }; return val, nil      (or the bare form)
 func (c *ctx) strict(name, ret string, guard bool, body []ast.Stmt) (row, bool) {
+	// equivalent spellings of the comma-ok form are brought to the one matched below:
+	//   if v, ok := recv.Val.(T); ok { return v, nil }; return zero, err
+	//   v, ok := recv.Val.(T); if ok { return v, nil }; return zero, err
+	if len(body) == 2 {
+		if is, ok := body[0].(*ast.IfStmt); ok && is.Init != nil && is.Else == nil {
+			body = []ast.Stmt{is.Init, &ast.IfStmt{Cond: is.Cond, Body: is.Body}, body[1]}
+		}
+	}
+	if len(body) == 3 {
+		if is, ok := body[1].(*ast.IfStmt); ok && is.Init == nil && is.Else == nil && len(is.Body.List) == 1 && isErrReturn(body[2]) {
+			if id, ok := is.Cond.(*ast.Ident); ok {
+				if rs, ok := is.Body.List[0].(*ast.ReturnStmt); ok && len(rs.Results) == 2 && isIdent(rs.Results[1], "nil") {
+					body = []ast.Stmt{body[0],
+						&ast.IfStmt{Cond: &ast.UnaryExpr{Op: token.NOT, X: id}, Body: &ast.BlockStmt{List: []ast.Stmt{body[2]}}},
+						rs}
+				}
+			}
+		}
+	}
 	if len(body) < 2 {
 		return row{}, false
 	}
